@@ -53,6 +53,7 @@ class ClockAndHistory(Harness):
                    "boundaries are crossed within a few steps (the thorough tier adds an unmodified 205-step run)",)
     outside = ("negative time indices (the statement speaks of times later than the current time)",)
     agreement_runs = 4
+    max_decisions = 40000      # the 205-step run
 
     def cases(self, tier):
         out = []
@@ -133,7 +134,7 @@ class _Watch:
             g.note("nontrivial")
         if kind == "drift-changed":
             g.note("drift-changed")
-        if kind in ("consult", "hook:order-after") and self.step >= 0:
+        if kind in ("consult", "hook:order-after") and self.step >= 0 and self.total <= 10:
             self.mid_step_read(sim)
         if kind == "log-direct" and isinstance(p, MarketStepBeginLog):
             m = p.market
